@@ -171,7 +171,15 @@ func timing(o *hx.Opts, rep *hx.Report) {
 			}
 			done := make(chan bool, 1)
 			t0 := time.Now()
-			go func() { done <- utils.MatchWildcard(n, p, "/") }()
+			go func() {
+				r := utils.MatchWildcard(n, p, "/")
+				// the same pattern one level down, through the entry LIST uses (reference + pattern -> canonical pattern ->
+				// match of every name): patterns with a hierarchy level must cost no more
+				utils.FilterMailboxes([]string{"x/" + n, "x/y/" + n}, "", "x/"+p)
+				utils.FilterMailboxes([]string{"x/" + n}, "x/", p)
+				utils.FilterMailboxes([]string{"x/" + n + "/" + n}, "x", "%/"+p)
+				done <- r
+			}()
 			select {
 			case <-done:
 				el := time.Since(t0)
